@@ -981,6 +981,13 @@ func c19Gen(g *Gen) {
 			lim := nU
 			if n >= 2 {
 				lim = c19Core
+				if t.body == "opaque" && !g.Thorough() {
+					// generated stdlib through the interpreter: length 2 sampled in the quick tier
+					// (exhaustive directly, where the values are compared with a direct call)
+					sample(t, "I", n, 60)
+					sample(t, "T", n, 60)
+					continue
+				}
 			}
 			exhL(t, "I", nil, n, lim)
 			exhL(t, "T", nil, n, lim)
